@@ -26,6 +26,8 @@ TPL = {
     "stop-before-fail": '$SYM[*][ stop(@ks == line_number()) @kf.nocontrib == line_number() -> fail() push("v", valid()) push("f", failed()) ]',
     "skip-before-fail": '$SYM[*][ skip(@ks == line_number()) @kf.nocontrib == line_number() -> fail() push("v", valid()) push("f", failed()) ]',
     "fail-onmatch": '$SYM[*][ gt(line_number(), @ks) fail.onmatch() push("v", valid()) push("f", failed()) ]',
+    # a last() component runs before the fail on the last line (it freezes and re-freezes the variables; the verdict is never frozen)
+    "last-before-fail": '$SYM[*][ last.nocontrib() -> @l = 1 #1.nocontrib == "F" -> fail() push("v", valid()) push("f", failed()) ]',
     "fail-all-when": '$SYM[*][ @kf.nocontrib == line_number() -> fail_all() push("v", valid()) push("f", failed()) ]',
 }
 
@@ -35,7 +37,7 @@ def verdict_oracle(tpl, kf, ks):
     valid = True
     v, ret = [], []
     for i in range(NREC):
-        if tpl in ("fail-when", "fail-all-when"):
+        if tpl in ("fail-when", "fail-all-when", "last-before-fail"):
             if i == kf:
                 valid = False
             v.append(valid)
@@ -69,6 +71,9 @@ def verdict_oracle(tpl, kf, ks):
         # the onmatch look-ahead evaluates the sibling valid() before fail.onmatch() itself runs; the per-line
         # reading on the firing line is therefore not compared, only the final verdict and the returned lines
         return ([], [], valid, ret)
+    if tpl == "last-before-fail":
+        # once last() has run on the last line the variables are frozen: the two pushes of that line do not happen; the verdict is not frozen
+        v = v[:-1]
     return (v, [not x for x in v], valid, ret)
 
 
@@ -88,14 +93,18 @@ ENC = [
     post="_ == verdict_oracle(tpl, kf, ks)",
     bound="5 stub records; fail line kf and stop/skip line (or match threshold) ks symbolic LO..HI (never-firing values "
     "included); templates: fail() / fail_and_stop() / fail_all() under '->', fail_and_stop(cond), stop or skip before the fail, "
-    "fail.onmatch(); observed after the fail component on every line: valid(), failed(); final is_valid; returned lines",
+    "fail.onmatch(), a last() component before a fail that reads its condition from the line; observed after the fail component on every line: valid(), failed(); final is_valid; returned lines",
     outside="more than 5 records",
     encodes=ENC,
     tiers={"quick": {"timeout": 900, "K": {"LO": -1, "HI": 5}, "shards": product(tpl=list(TPL))},
            "thorough": {"timeout": 2400, "K": {"LO": -2, "HI": 6}, "shards": product(tpl=list(TPL))}},
 )
 def verdict_run(tpl: str, kf: int, ks: int) -> Tuple[List[bool], List[bool], bool, List[int]]:
-    p, pr = fresh(TPL[tpl], RECS)
+    recs = RECS
+    if tpl == "last-before-fail":
+        # the fail condition is read from the line itself (second cell 'F' on line kf): functions are frozen once last() has run
+        recs = [[r[0], "F" if i == kf else "-"] for i, r in enumerate(RECS)]
+    p, pr = fresh(TPL[tpl], recs)
     p.variables["kf"] = kf
     p.variables["ks"] = ks
     got = [int(l[0]) for l in p.next()]
